@@ -103,6 +103,21 @@ RESUME_LATER = "        eventually(self._maybe_fetch_next)\n"
 RESUME_NOW = "        self._maybe_fetch_next()\n"
 RESUME_HEAD = "    def resumeProducing(self):\n        self._hungry = True\n"
 
+# ---- a segment held back while the consumer is paused, handed to the writer by a second route (C04.16)
+HELD_INIT = [(SEG, "        self._start_pause = None\n        self._lp = logparent\n",
+              "        self._start_pause = None\n        self._held_segment = None\n        self._lp = logparent\n")]
+HELD_HOLD = [(SEG, "        self._cancel_segment_request = None\n        # we got file[segment_start:",
+              "        self._cancel_segment_request = None\n        if self._alive and not self._hungry:\n"
+              "            self._held_segment = (segment_args, wanted_segnum)\n            return\n"
+              "        # we got file[segment_start:")]
+HELD_HELPER = [(SEG, "    def _retry_bad_segment(self, f):\n",
+                "    def _deliver_held_segment(self, segment_args, wanted_segnum):\n        if not self._alive:\n            return\n"
+                "        d = defer.maybeDeferred(self._got_segment, segment_args, wanted_segnum)\n"
+                "        d.addErrback(self._error)\n\n    def _retry_bad_segment(self, f):\n")]
+HELD_TAKE = "        if self._held_segment is not None:\n            held, self._held_segment = self._held_segment, None\n"
+RESUME_OLD = RESUME_HEAD + RESUME_LATER
+FETCH_GUARD_TAIL = "        if self._active_segnum is not None:\n            return\n        self._fetch_next()\n"
+
 MUTANTS = [
     # ---- C04.1 isolation
     M("one-segmentation-per-node", NODE,
@@ -517,6 +532,32 @@ MUTANTS = [
               "        if self._active_segnum is not None or self._writing:\n            return\n")]),
     M("benign-write-before-advance-resume-at-once-next-turn-lambda", SEG, ADVANCE_WRITE, WRITE_ADVANCE, None,
       edits=[(SEG, RESUME_LATER, "        eventually(lambda: self._maybe_fetch_next())\n")]),
+    # ---- C04.16 a held segment reaches the writer before any fetch of the same activation
+    M("held-segment-delivered-after-fetch-is-scheduled", SEG, RESUME_OLD,                                              # seeded C04-G
+      RESUME_OLD + HELD_TAKE + "            eventually(self._deliver_held_segment, *held)\n", "C04.16",
+      edits=HELD_INIT + HELD_HOLD + HELD_HELPER),
+    M("held-segment-scheduled-straight-into-writer-after-fetch", SEG, RESUME_OLD,
+      RESUME_OLD + HELD_TAKE + "            eventually(self._got_segment, *held)\n", "C04.16", edits=HELD_INIT + HELD_HOLD),
+    M("held-segment-delivered-after-fetch-in-fetch-gate", SEG, FETCH_GUARD_TAIL,
+      FETCH_GUARD_TAIL + HELD_TAKE + "            self._deliver_held_segment(*held)\n", "C04.16",
+      edits=HELD_INIT + HELD_HOLD + HELD_HELPER),
+    M("held-segment-scheduled-but-fetch-runs-at-once", SEG, RESUME_OLD,
+      RESUME_HEAD + HELD_TAKE + "            eventually(self._deliver_held_segment, *held)\n        self._maybe_fetch_next()\n",
+      "C04.16", edits=HELD_INIT + HELD_HOLD + HELD_HELPER),
+    M("held-segment-flushed-by-helper-after-fetch-is-scheduled", SEG, RESUME_OLD,
+      "    def _flush_held(self):\n" + HELD_TAKE + "            eventually(self._deliver_held_segment, *held)\n\n"
+      + RESUME_OLD + "        self._flush_held()\n", "C04.16", edits=HELD_INIT + HELD_HOLD + HELD_HELPER),
+    M("benign-held-segment-delivered-before-fetch", SEG, RESUME_OLD,
+      RESUME_HEAD + HELD_TAKE + "            eventually(self._deliver_held_segment, *held)\n" + RESUME_LATER, None,
+      edits=HELD_INIT + HELD_HOLD + HELD_HELPER),
+    M("benign-held-segment-delivered-instead-of-fetch", SEG, RESUME_OLD,
+      RESUME_HEAD + "        if self._held_segment is None:\n    " + RESUME_LATER + HELD_TAKE
+      + "            eventually(self._deliver_held_segment, *held)\n", None, edits=HELD_INIT + HELD_HOLD + HELD_HELPER),
+    M("benign-held-segment-delivered-at-once-fetch-later", SEG, RESUME_OLD,
+      RESUME_OLD + HELD_TAKE + "            self._deliver_held_segment(*held)\n", None,
+      edits=HELD_INIT + HELD_HOLD + HELD_HELPER),
+    M("benign-resume-schedules-fetch-through-helper", SEG, RESUME_OLD,
+      "    def _kick_later(self):\n" + RESUME_LATER + "\n" + RESUME_HEAD + "        self._kick_later()\n", None),
     # ---- vanished anchor
     M("vanish-resume-producing", SEG, "    def resumeProducing(self):", "    def _resume_producing(self):", "ANALYSIS-ERROR"),
     M("vanish-get-num-segments", NODE, "    def get_num_segments(self):", "    def get_num_segments_(self):", "ANALYSIS-ERROR"),
